@@ -1,6 +1,6 @@
 From Coq Require Import Reals ZArith List String.
 From Coquelicot Require Import Coquelicot.
-From OV Require Import Ops RInst XR Gen.RealRays Gen.Standard Gen.Geometries Model.Trace Lemmas.L_RealRays Lemmas.L_Standard Lemmas.L_Trace Lemmas.L_Gradient Lemmas.L_RealRaysX Lemmas.L_Frame.
+From OV Require Import Ops RInst XR Gen.RealRays Gen.Standard Gen.Geometries Model.Trace Lemmas.L_RealRays Lemmas.L_Standard Lemmas.L_Trace Lemmas.L_Gradient Lemmas.L_RealRaysX Lemmas.L_Frame Model.PlumbSteps Gen.Plumbing Model.Plumb Lemmas.L_Plumb.
 Local Open Scope R_scope.
 Import ListNotations.
 
@@ -383,3 +383,30 @@ Theorem C02_conic_distance_nonneg :
          (Fin x) (Fin y) (Fin Rc) = Fin t -> (0 <= t)%R.
 Proof. exact conic_distance_nonneg. Qed.
 Print Assumptions C02_conic_distance_nonneg.
+
+(** the hand-written composition of Model/Trace.v IS the plumbing regenerated from the source tree
+    (Gen/Plumbing.v: the statements of Surface._trace_real / _interact / trace, CoordinateSystem.localize /
+    globalize, BaseCoating.interact, SurfaceGroup.trace in source order), executed by Model/Plumb.v *)
+Theorem C02_trace_surface_is_regenerated_plumbing :
+  forall (s : surf ROps) (r : ray ROps),
+       trace_real_run repo_lists s plumb_trace_real r None = of_opt (trace_surface s r).
+Proof. exact (plumb_trace_real_is_model (O:=ROps)). Qed.
+Print Assumptions C02_trace_surface_is_regenerated_plumbing.
+
+Theorem C02_trace_is_regenerated_plumbing :
+  forall (ss : list (surf ROps)) (r : ray ROps),
+       group_trace_run repo_lists ss r = of_opt (trace ss r).
+Proof. exact (plumb_group_trace_is_model (O:=ROps)). Qed.
+Print Assumptions C02_trace_is_regenerated_plumbing.
+
+Theorem C02_frame_change_is_regenerated_plumbing :
+  forall (s : surf ROps) (r : ray ROps),
+       cs_run s plumb_localize r = Ok (localize s r) /\ cs_run s plumb_globalize r = Ok (globalize s r).
+Proof. intros s r; split; [exact (plumb_localize_is_model (O:=ROps) s r)|exact (plumb_globalize_is_model (O:=ROps) s r)]. Qed.
+Print Assumptions C02_frame_change_is_regenerated_plumbing.
+
+Theorem C02_repo_lists_def :
+  repo_lists = mkLists plumb_trace_real plumb_interact plumb_surface_trace plumb_localize plumb_globalize
+                       plumb_coat_interact plumb_group_trace plumb_geom_localize plumb_geom_globalize.
+Proof. reflexivity. Qed.
+Print Assumptions C02_repo_lists_def.
